@@ -29,7 +29,7 @@ def alphabet(kind="local"):
             continue  # a lossy pickle and a wiped directory only mean something with a file store underneath
         ops.append(("has", k))
         ops.append(("fetch", k))
-    ops += [("store", "k2", "v2"), ("store", "k4", None), ("store", "k0", "v0")] + ([("store", "k6", "lossy"), ("wipe_reopen",), ("ext_store", "k1", "v1")] if kind != "memory" else [])
+    ops += [("store", "k2", "v2"), ("store", "k4", None), ("store", "k0", "v0"), ("store", "k0", "v0b")] + ([("store", "k6", "lossy"), ("wipe_reopen",), ("ext_store", "k1", "v1")] if kind != "memory" else [])
     ops += [
             ("sync", "/p", "k0"), ("sync", "/p", "k2"), ("paths", "/p"), ("paths", "/q")]
     return ops
